@@ -379,6 +379,16 @@ class BaseSubscription:
         )
         queue = self.queue
         if matched and queue is not None:
+            check_output = self.storage.check_output
+            if check_output and not check_output(
+                event,
+                {
+                    "config": Config,
+                    "client_id": self.client_id,
+                    "auth_token": self.auth_token,
+                },
+            ):
+                return
             await queue.put((self.sub_id, event))
 
     def check_event(self, event: Event, filters: list):
